@@ -1,3 +1,4 @@
+import RNacos.Lemmas.MgrSplit
 import RNacos.Lemmas.LogHistory
 /-!
 # C02 — Raft log: acknowledged entries survive reopen unchanged; none are invented
@@ -123,5 +124,53 @@ example :
     (after 1 0 0 ops).2 = [⟨1, 1, [7]⟩, ⟨2, 3, [1, 2]⟩] ∧
     readRecords (after 1 0 0 ops).1 0 9 = some [⟨1, 1, [7]⟩, ⟨2, 3, [1, 2]⟩] := by
   decide +kernel
+
+end RNacos.Props.C02
+
+/-! ## the whole log: several files (manager level)
+
+`RNacos/Model/LogManager.lean` models `RaftLogManager` - the catalogue of files plus what each holds, with *when a
+file is full* left as a parameter.  `Chain` (Lemmas/MgrBasic) is its invariant.  The theorems say that, whatever the
+geometry of the files and the sizes of the records, the manager's operations are the list specification's
+(`RNacos/Model/LogStore.lean`): where the files roll over cannot be seen. -/
+namespace RNacos.Props.C02
+open RNacos.LogManager RNacos.LogStore
+
+/-- the list specification's view of a catalogue -/
+def absStore (fs : List File) (t : Nat) (p : Option (Nat × Nat)) : Store := ⟨absEnts fs, absNext fs, t, p⟩
+
+/-- **append / replicate refine the specification for every file geometry**: a contiguous batch is taken iff the
+specification takes it, the visible log and the next expected index are the specification's, the catalogue stays
+well formed; a refused batch changes nothing that can be seen -/
+theorem manager_append_refines (full : File → Bool) (hfresh : ∀ f : File, f.recs = [] → full f = false)
+    (fs : List File) (hc : Chain fs) (e : Ent) (es : List Ent) (hcont : Contig (e :: es)) (t : Nat) (p : Option (Nat × Nat)) :
+    Chain (writeBatchFs full fs (e :: es)).1 ∧
+    ((writeBatchFs full fs (e :: es)).2 = .ok ↔ (append (absStore fs t p) (e :: es)).2 = true) ∧
+    absEnts (writeBatchFs full fs (e :: es)).1 = (append (absStore fs t p) (e :: es)).1.ents ∧
+    absNext (writeBatchFs full fs (e :: es)).1 = (append (absStore fs t p) (e :: es)).1.next := by
+  have h := writeBatchFs_spec full hfresh (e :: es) fs hc hcont
+  simp only at h
+  by_cases hacc : absNext fs = none ∨ absNext fs = some e.index
+  · rw [if_pos hacc] at h
+    simp only [append, absStore, hacc, if_true]
+    exact ⟨h.1, by simp [h.2.1], h.2.2.1, h.2.2.2⟩
+  · rw [if_neg hacc] at h
+    simp only [append, absStore, hacc, if_false]
+    exact ⟨h.1, by simp [h.2.1], h.2.2.1, h.2.2.2⟩
+
+/-- **reads** return exactly the specification's entries of the requested range -/
+theorem manager_get_refines (fs : List File) (hc : Chain fs) (a b t : Nat) (p : Option (Nat × Nat)) :
+    LogManager.get ⟨fs, p⟩ a b = LogStore.get (absStore fs t p) a b := by
+  rw [get_spec fs p hc a b]; rfl
+
+/-- non-vacuity: three appends with a file that is full after two records roll over, and read back as one log -/
+def full2 : File → Bool := fun f => decide (f.recs.length ≥ 2)
+
+example :
+    (writeBatchFs full2 [] (mkEnts 1 1 3 5 0)).2 = .ok ∧ (writeBatchFs full2 [] (mkEnts 1 1 3 5 0)).1.length = 2 ∧
+      absEnts (writeBatchFs full2 [] (mkEnts 1 1 3 5 0)).1 = mkEnts 1 1 3 5 0 := by
+  decide
+
+example : Contig (mkEnts 1 1 3 5 0) := by simp [mkEnts, Contig, List.range, List.range.loop]
 
 end RNacos.Props.C02
